@@ -287,3 +287,27 @@ Qed.
 
 Lemma name_idx_starts p i : bstarts p (name_idx p i) = true.
 Proof. apply starts_with_app. Qed.
+
+(* ------------------------------------------------------------------ *)
+(* characters of a joined text                                          *)
+
+Lemma bmem_bjoin c sep l : c <> sep -> Forall (fun x => bmem c x = false) l -> bmem c (bjoin sep l) = false.
+Proof.
+  intros Hc. induction 1 as [|x l Hx _ IH]; [reflexivity|].
+  destruct l as [|y l]; [exact Hx|].
+  change (bjoin sep (x :: y :: l)) with (x ++ sep :: bjoin sep (y :: l)).
+  unfold bmem, mem in *. rewrite existsb_app, Hx. cbn [existsb orb].
+  rewrite IH, orb_false_r. destruct (beqb_spec sep c); [congruence|reflexivity].
+Qed.
+
+
+Lemma not_blank_bjoin sep l x : In x l -> is_blank x = false -> is_blank (bjoin sep l) = false.
+Proof.
+  induction l as [|y l IH]; intros Hx Hb; [destruct Hx|].
+  destruct l as [|z l].
+  - destruct Hx as [->|[]]. exact Hb.
+  - change (bjoin sep (y :: z :: l)) with (y ++ sep :: bjoin sep (z :: l)).
+    rewrite is_blank_app, is_blank_cons. destruct Hx as [->|Hx].
+    + now rewrite Hb.
+    + rewrite (IH Hx Hb). now rewrite !andb_false_r.
+Qed.
